@@ -522,3 +522,57 @@ func TestReplay(t *testing.T) {
 
 var _ = os.Getenv
 var _ = time.Now
+
+// FuzzFraming (thorough tier): coverage-guided search over (packet specs, chunk spec) decoded
+// from the fuzz input by a small data provider; same oracle as TestFraming.
+func FuzzFraming(f *testing.F) {
+	f.Add([]byte{2, 0x22, 0, 5, 1, 0x10, 1, 9, 0, 3, 1, 4})
+	f.Add([]byte{1, 0x23, 0, 0, 0, 2, 1})
+	f.Add([]byte{3, 0x03, 0, 0, 0, 0x20, 1, 200, 1, 0x11, 0, 7, 2, 6, 1, 1, 1})
+	f.Add([]byte{1, 0x22, 1, 255, 3, 1, 5})
+	f.Fuzz(func(t *testing.T, in []byte) {
+		pos := 0
+		next := func() int {
+			if pos >= len(in) {
+				return 0
+			}
+			b := in[pos]
+			pos++
+			return int(b)
+		}
+		n := next()%5 + 1
+		var c Case
+		for i := 0; i < n; i++ {
+			ty := byte(next()%0x3F) + 1
+			p := PktSpec{Type: ty, Compress: next()%2 == 1}
+			l := next()
+			switch next() % 4 {
+			case 1:
+				l *= 64
+			case 2:
+				l = l*257 + 4090
+			case 3:
+				l = 65530 + l%12
+			}
+			if isJSONType(ty) {
+				p.Cmd = &Cmd{CommandType: byte(l), CommandId: "f", CommandBody: string(bytes.Repeat([]byte("q"), l%3000))}
+			} else {
+				p.BodyLen, p.BodyMode, p.BodySeed = l, next()%2, uint64(next())
+			}
+			c.Packets = append(c.Packets, p)
+		}
+		c.Chunk.EOFWithLast = next()%2 == 1
+		switch next() % 3 {
+		case 0:
+			c.Chunk.Fixed = next()%7 + 1
+		case 1:
+			for pos < len(in) && len(c.Chunk.Sizes) < 64 {
+				c.Chunk.Sizes = append(c.Chunk.Sizes, next()%9)
+			}
+		}
+		c.Chunk.Strategy = "fuzz"
+		if fl, _, _ := runCase(c); fl != nil && !vkit.IsKnown(fl.key) {
+			t.Fatalf("%s: %s", fl.key, fl.detail)
+		}
+	})
+}
